@@ -3007,8 +3007,7 @@ process(struct Options *opt)
                 fprintf(stderr, err3b, "Horiz.");
                 fprintf(stderr, err3c, "horiz.");
                 fprintf(stderr, err3d, in.dims[0]);
-                im.hres   = in.dims[0];
-                opt->hres = in.dims[0];
+                im.hres = in.dims[0]; /* for this input only: the option holds for the next input as given */
             }
             im.vres = (opt->vres == 0) ? in.dims[1] : opt->vres;
             if ((im.vres < in.dims[1]) && (opt->ctm == EXPAND)) {
@@ -3016,8 +3015,7 @@ process(struct Options *opt)
                 fprintf(stderr, err3b, "Vert.");
                 fprintf(stderr, err3c, "vert.");
                 fprintf(stderr, err3d, in.dims[1]);
-                im.vres   = in.dims[1];
-                opt->vres = in.dims[1];
+                im.vres = in.dims[1];
             }
             im.dres = 1;
             if (in.rank == 3) {
@@ -3027,8 +3025,7 @@ process(struct Options *opt)
                     fprintf(stderr, err3b, "Depth");
                     fprintf(stderr, err3c, "depth");
                     fprintf(stderr, err3d, in.dims[2]);
-                    im.dres   = in.dims[2];
-                    opt->dres = in.dims[2];
+                    im.dres = in.dims[2];
                 }
             }
             len = im.hres * im.vres * im.dres;
